@@ -304,7 +304,7 @@ def topo_search(repo, prop, tier, seed=1):
     fcntl.flock(lockf, fcntl.LOCK_EX)
     try:
         count = 300000 if tier == "thorough" else 20000
-        res = {"what": "bounded replay of C19 on the real `des` crate: %d seeded random simulations (2..8 modules, some nested; 0..16 gate chains with 0..3 transit gates, every 7th scenario one chain with 17..24 transit gates; self-links, parallel links, unconnected gates; hops connected in random order and orientation). Globals::topology (= Topology::from_modules) and Topology::spanned from a random root are compared node for node and edge for edge (owner of the endpoint -> owner of the far end, labelled with exactly those two gates) with the list of chains the driver built; connected / bidirectional (also after filter_edges), dijkstra from every node (entries for exactly the reachable nodes other than the source; first hop leaves the source towards a node one hop closer), filter_nodes (random subsets), filter_edges and edges_for against a reference implementation" % count,
+        res = {"what": "bounded replay of C19 on the real `des` crate: %d seeded random simulations (2..8 modules, some nested; 0..16 gate chains with 0..3 transit gates, every 7th scenario one chain with 17..24 transit gates; self-links, parallel links, unconnected gates; hops connected in random order and orientation). Globals::topology (= Topology::from_modules) and Topology::spanned from a random root are compared node for node and edge for edge (owner of the endpoint -> owner of the far end, labelled with exactly those two gates) with the list of chains the driver built; connected / bidirectional (also after filter_edges with a pseudo-random predicate and with the two one-directional predicates 'towards a later node' / 'towards an earlier node'), Topology::from_modules over a random subset of the modules, dijkstra from every node (entries for exactly the reachable nodes other than the source; first hop leaves the source towards a node one hop closer), filter_nodes (random subsets), filter_edges and edges_for against a reference implementation" % count,
                "bound": "%d random scenarios; seed %d" % (count, seed), "labelled": "bounded", "counts_as_proof": False}
         exe, err = _build_rt(repo, "topo_driver")
         if exe is None:
@@ -351,7 +351,7 @@ def timer_search(repo, prop, tier, seed=1):
     fcntl.flock(lockf, fcntl.LOCK_EX)
     try:
         count = 300000 if tier == "thorough" else 20000
-        res = {"what": "bounded replay of C05 on the real `des` crate: %d seeded random scenarios of 1..2 modules x 1..3 tasks, each task a program of 1..5 timer operations (sleep, sleep_until incl. elapsed deadlines, timeout around a sleep and around a never-ready future, a sleep polled once and dropped, a pinned sleep that is reset, interval with Burst / Delay / Skip and late ticks, timeout_at, interval_at incl. a start in the past, Interval::reset, a sub-task aborted while it sleeps); all durations are multiples of 10 ms in 0..50 ms so timers share deadlines. Every completion is logged with SimTime::now() and compared with the deadline the property prescribes; results of timeout (Ok iff inner <= deadline) and the values returned by Interval::tick are compared too; 0..3 self-messages per module (activations that are not timer wake-ups) and debounce tasks whose sleep every message resets; the run must return Ok with every task finished and must not end before the last deadline" % count,
+        res = {"what": "bounded replay of C05 on the real `des` crate: %d seeded random scenarios of 1..2 modules x 1..3 tasks, each task a program of 1..5 timer operations (sleep, sleep_until incl. elapsed deadlines, timeout around a sleep and around a never-ready future, a sleep polled once and dropped, a pinned sleep that is reset, interval with Burst / Delay / Skip and late ticks, timeout_at, interval_at incl. a start in the past, Interval::reset, a sub-task aborted while it sleeps); all durations are multiples of 10 ms in 0..50 ms so timers share deadlines, except for intervals with periods of 2.5 / 7.3 / 10.4 ms and one tick that is late by 5.3..13 ms (sub-millisecond arithmetic of the missed-tick behaviours). Every completion is logged with SimTime::now() and compared with the deadline the property prescribes; results of timeout (Ok iff inner <= deadline) and the values returned by Interval::tick are compared too; 0..3 self-messages per module (activations that are not timer wake-ups) and debounce tasks whose sleep every message resets; the run must return Ok with every task finished and must not end before the last deadline" % count,
                "bound": "%d random scenarios; seed %d" % (count, seed), "labelled": "bounded", "counts_as_proof": False}
         exe, err = _build_rt(repo, "timer_driver")
         if exe is None:
